@@ -237,7 +237,7 @@ theorem ReplI_stepW (hP : ProcI s) (hV : ReplI s) (h : WStep s s' wid w w') : Re
     · rcases hac with ⟨e, _⟩ | ⟨_, _, e, _⟩ | ⟨_, e1, _, e2⟩
       · exact absurd hpc e
       · left
-        cases hc : exitPc s.cpc
+        cases hc : exitPhasePc s.cpc
         · exact absurd (by rw [e]; simp) (r5 hc)
         · rfl
       · right
